@@ -4,7 +4,9 @@ package pilosa_test
 // C11/C17/C20 cluster legs.
 
 import (
+	"context"
 	"os"
+	"regexp"
 	"strconv"
 	"testing"
 	"time"
@@ -50,4 +52,29 @@ func vrcNodes() int {
 		return n
 	}
 	return 1
+}
+
+var vrcSyncIndexRe = regexp.MustCompile(`index=([A-Za-z0-9_-]+)`)
+
+// vrcSyncData runs one anti-entropy pass on node k for the case that works on
+// `index`. A pass that fails on ANOTHER index is not the case's business: an
+// index deleted by an earlier case is occasionally brought back on one node by
+// a gossip state exchange that was prepared before the deletion, and every
+// later pass of that node then fails on it ("index not found" on the peers).
+// Such a stale index is removed and the pass repeated once; stale reports
+// whether that happened.
+func vrcSyncData(c test.Cluster, k int, index string) (stale bool, err error) {
+	err = c[k].Server.SyncData()
+	for attempt := 0; err != nil && attempt < 3; attempt++ {
+		m := vrcSyncIndexRe.FindStringSubmatch(err.Error())
+		if m == nil || m[1] == index {
+			return stale, err
+		}
+		stale = true
+		for _, nd := range c {
+			_ = nd.API.DeleteIndex(context.Background(), m[1])
+		}
+		err = c[k].Server.SyncData()
+	}
+	return stale, err
 }
